@@ -294,12 +294,19 @@ def main():
     ap.add_argument('pid')
     ap.add_argument('--tier', default=os.environ.get('VERIF_TIER', 'quick'), choices=['quick', 'thorough'])
     ap.add_argument('--replay')
+    ap.add_argument('--child-optimized', help='(internal) run the failing-input search only, in this interpreter (started with -O), and '
+                                              'write the violations found to the given file')
     a = ap.parse_args()
     pid = a.pid.upper()
     seed = int(os.environ.get('VERIF_SEED', '0') or 0)
     mod = importlib.import_module('props.%s' % pid.lower())
+    if a.child_optimized:
+        sys.exit(child_optimized(pid, mod, a.tier, seed, a.child_optimized))
     if a.replay:
         payload = json.load(open(a.replay))
+        if (payload.get('violation') or {}).get('interpreter') == 'python -O' and __debug__:
+            # a violation found in the optimised interpreter replays there
+            sys.exit(subprocess.call([sys.executable, '-O', os.path.abspath(__file__), pid, '--replay', a.replay]))
         if (payload.get('violation') or {}).get('purity'):
             import purity
             sys.exit(purity.replay(payload['violation']))
@@ -320,6 +327,53 @@ def main():
         print('INFRA-FAILURE %s: unexpected exception in the check machinery' % pid)
         rc = 2
     sys.exit(rc)
+
+
+# `python -O` (recommended by xfab/checks.py for speed) strips assert statements and makes `__debug__` False in the library: the
+# failing-input search is repeated there.  Not for C20: with __debug__ False the switch reads False whatever is assigned (reviewed
+# behaviour, `_checkState.activated`), so its first clause is vacuous and its oracle, written for the normal interpreter, does not apply.
+# Not for C12 (its oracle exercises Umis' input guard, which is off there for the same reason) and not for C19 (the reviewed parameters.py
+# validates set_varylist / set_variable_values with assert statements: under -O the reviewed code itself behaves differently).
+NO_OPTIMIZED_CHILD = {'C20', 'C12', 'C19'}
+
+
+def child_optimized(pid, mod, tier, seed, out_path):
+    """body of the -O child: the search of the property (quick budget) with the value-semantics guard installed"""
+    ctx = Ctx(pid, 'quick', seed)
+    ctx.optimized = True
+    import purity
+    purity.install()
+    res = {'violations': [], 'evaluations': 0, 'error': None}
+    try:
+        orc = mod.oracle(ctx, hints=[])
+        res['evaluations'] = int(orc.get('evaluations', 0))
+        res['violations'] = purity.violations() + list(orc.get('violations', []))
+    except Exception:
+        res['error'] = traceback.format_exc()[-1500:]
+    purity.uninstall()
+    for v in res['violations']:
+        v['interpreter'] = 'python -O'
+    with open(out_path, 'w') as fh:
+        json.dump(res, fh, default=str)
+    return 0
+
+
+def run_optimized_child(pid, tier, seed):
+    import tempfile
+    fd, path = tempfile.mkstemp(prefix='optchild_%s_' % pid, suffix='.json', dir=os.path.join(VERIF, 'lean', '.lake') if os.path.isdir(os.path.join(VERIF, 'lean', '.lake')) else None)
+    os.close(fd)
+    try:
+        env = dict(os.environ, PYTHONPATH=os.pathsep.join([HERE] + [x for x in os.environ.get('PYTHONPATH', '').split(os.pathsep) if x]))
+        rc, out, dt = sh([sys.executable, '-O', os.path.abspath(__file__), pid, '--tier', tier, '--child-optimized', path], timeout=3600, env=env)
+        try:
+            res = json.load(open(path))
+        except Exception:
+            res = {'violations': [], 'evaluations': 0, 'error': 'no result from the child (rc=%s): %s' % (rc, out[-800:])}
+        res['wall_s'] = round(dt, 1)
+        return res
+    finally:
+        if os.path.exists(path):
+            os.remove(path)
 
 
 def run(pid, mod, tier, seed, t0):
@@ -459,6 +513,14 @@ def run(pid, mod, tier, seed, t0):
     purity.uninstall()
     cov = cover.report(pid, REPO)
     cover.stop()
+    opt = None
+    if pid not in NO_OPTIMIZED_CHILD:
+        opt = run_optimized_child(pid, tier, seed)
+        if opt.get('error'):
+            ctx.notes.append('search in the optimised interpreter aborted: %s' % opt['error'][-300:])
+            broken.append({'kind': 'search-aborted', 'what': 'python -O child', 'detail': opt['error'][-900:]})
+        orc['violations'] = list(orc.get('violations', [])) + list(opt.get('violations', []))
+        orc['evaluations'] = int(orc.get('evaluations', 0)) + int(opt.get('evaluations', 0))
     if cov['new_unexercised']:
         # recorded, and the search above was repeated with the large budget because of it; NOT an alarm by itself: harmless
         # refactors routinely contain defensive lines no valid input reaches (measured on twelve behaviour-preserving
@@ -529,6 +591,8 @@ def run(pid, mod, tier, seed, t0):
                           'new_unexercised': cov['new_unexercised'][:20], 'baseline_lines_not_reached_this_run': cov['lost'][:40],
                           'texts': cov['texts']},
         'value_semantics_guard': dict(purity.STATS, mutation_events=len(purity.EVENTS), history_events=len(purity.HISTORY_EVENTS), dtype_events=len(purity.DTYPE_EVENTS), container_events=len(purity.CONTAINER_EVENTS)),
+        'optimized_interpreter_pass': ({'evaluations': opt.get('evaluations', 0), 'violations': len(opt.get('violations', [])), 'wall_s': opt.get('wall_s')}
+                                       if opt is not None else 'not applicable (see NO_OPTIMIZED_CHILD in harness/check.py)'),
         'notes': ctx.notes,
     }
     ev = {'property_id': pid, 'tier': tier, 'seed': seed, 'level': 'proof', 'coverage': cov,
